@@ -89,6 +89,9 @@ func (m *Machine) branch(cond *smt.Term) bool {
 	if m.concrete {
 		panic("symbolic branch in concrete mode")
 	}
+	if m.spec > 0 {
+		panic(specAbort{})
+	}
 	pos := len(m.decisions)
 	if pos >= m.lim.MaxDecisions {
 		panic(pathAbort{"limit", fmt.Sprintf("more than %d decisions on one path", m.lim.MaxDecisions)})
@@ -137,6 +140,9 @@ func (m *Machine) choose(n int) int {
 	if n == 1 {
 		return 0
 	}
+	if m.spec > 0 {
+		panic(specAbort{})
+	}
 	pos := len(m.decisions)
 	if pos >= m.lim.MaxDecisions {
 		panic(pathAbort{"limit", fmt.Sprintf("more than %d decisions on one path", m.lim.MaxDecisions)})
@@ -160,6 +166,9 @@ func (m *Machine) choose(n int) int {
 func (m *Machine) concretize(t *smt.Term, what string) uint64 {
 	if t.IsConst() {
 		return t.V
+	}
+	if m.spec > 0 {
+		panic(specAbort{})
 	}
 	pos := len(m.decisions)
 	if pos < len(m.prefix) {
